@@ -9,6 +9,11 @@ CHECKS = {
     text="TLC model-checks the closed-form corollaries of the TLA+ reference semantics (FamiliesMC) and judges every formula the real generators produce on the bounded scope: for all 2^n assignments Sat(a,F) <=> Object(params, valuation(a)); larger seeded instances on proposed candidate assignments. Bounded-exhaustive, not a proof for all sizes.",
     note="Trusted: label->index-tuple projection (harness/project.py), TLC, the transcription of the documentation into Families.tla. Bounds are recorded in the evidence file.",
     ref="DESIGN.md §4 C01"),
+ "C02": dict(
+    technique="TLA+ reference semantics (Families.tla) model-checked by TLC; implementation formulas judged by TLC over all assignments (trace validation, JudgeFamilies.tla)",
+    text="TLC model-checks closed forms of the reference semantics on all graphs with <= 4 vertices (Tseitin solution count, even-colouring criterion, clique counts with/without symmetry breaking) and judges every formula the real generators produce for all labelled graphs with <= 4 vertices (5 sampled) and all parameters in range: pointwise Sat(a,F) <=> Object for all 2^n assignments, projection equality for dominating set, sat-equivalence for the Ramsey witness; larger seeded instances on candidate assignments.",
+    note="Trusted: the binding of identifiers to index tuples through the formula's variable groups (harness/project.py), TLC, the transcription of the documentation into Families.tla. Bounds recorded in the evidence file. Known finding ramlb:k!=s.",
+    ref="DESIGN.md §4 C02"),
  "C16": dict(
     technique="implementation-shaped TLA+ state machine (Graphs.tla) model-checked exhaustively by TLC; TLC-generated behaviours replayed into the real classes with every view compared after every call",
     text="TLC explores every reachable state of the implementation-shaped graph machine (vertex counts 0..3/4, all arguments incl. invalid) with invariant ViewsAgree and the no-side-effect action property; every behaviour of depth 2 (3 thorough) and thousands of deeper random walks are replayed into Graph/DirectedGraph/BipartiteGraph, comparing all views and networkx conversions with TLC's expected abstract views after each step.",
